@@ -3,6 +3,7 @@ import GrmVerif.Lemmas.YaccBuild
 import GrmVerif.Model.YaccLex
 import GrmVerif.Extracted
 import GrmVerif.Drive.Util
+import GrmVerif.Drive.C10T
 /-!
 Driver for C10.
 
@@ -136,6 +137,9 @@ def handleBuild (args : List Nat) : String :=
     | _ => "bad-request"
   | _ => "bad-request"
 
+/-! Request `3 …` (text → AST stage: rendered rules section, model parse, image) is handled by
+`Drive/C10T.lean`. -/
+
 /-- Request `2 inc <layout> <post>`: the model of `parse_ws` on `layout ++ post`, expressed as what a
 whole parse shows of it. `inc = 1`: the layout stands between `A:` and `'a';` — `ok j` (the production
 starts at `j`) when exactly the layout is skipped, `Illegal string` at the stopping offset when
@@ -163,6 +167,8 @@ def handle (args : List Nat) : String :=
   | 0 :: rest => handleBuild rest
   | 1 :: _ => "X witness (harness-side metamorphic check)"
   | 2 :: rest => handleWs rest
+  | 3 :: rest => C10T.handle rest
+  | 4 :: rest => C10T.handleFile rest
   | _ => "bad-request"
 
 end GrmVerif.Drive.C10
